@@ -16,7 +16,7 @@ func runC19(c *Check, rng *rand.Rand) {
 		"ReadFrom/WriteTo are not in the property's operation list and not on the proxy's I/O path; not exercised",
 		"memory safety of the unsafe byteslice pool is watched by checkptr (-race build) and ASan builds of the same workload; a fatal report kills the child and is a violation",
 	}
-	n := "60000"
+	n := "40000"
 	if c.Thorough() {
 		n = "3000000"
 	}
@@ -34,7 +34,7 @@ func runC19(c *Check, rng *rand.Rand) {
 		modes = []string{"race", "asan"}
 	}
 	for _, m := range modes {
-		nn := "8000"
+		nn := "4000"
 		if c.Thorough() {
 			nn = "400000"
 		}
